@@ -230,6 +230,27 @@ def run(prog, tier) -> Result:
                flag_kinds=())
         cr.run("R18.3", qfmt, f"format(q) [{fl}]", setup_text(fl, False), judge_text("format(q) without spec"),
                flag_kinds=())
+    # the unit's own text forms are its symbol
+    def setup_utext(fl, with_spec):
+        def setup(c):
+            c.m.text_templates = True
+            c.new_type("T", **FLAVORS[fl])
+            u = c.unit("us", "T")
+            return ([u, StrV("")] if with_spec else [u]), {}
+        return setup
+
+    def judge_utext(o):
+        st = o.state
+        if o.kind == "raise":
+            return (exc_sig(o), "text form of a unit raises")
+        v = o.value
+        if not (isinstance(v, StrV) and v.tag == f"symbol({st.ufind(o.args[0].uid)})"):
+            return ("text of the unit is not the symbol the reader looks up", repr(v))
+        return None
+    for fl in ("ref", "money"):
+        cr.run("R18.3", prog.method("Unit", "__str__"), f"str(unit) [{fl}]", setup_utext(fl, False), judge_utext, flag_kinds=())
+        cr.run("R18.3", prog.method("Unit", "__format__"), f"format(unit, '') [{fl}]", setup_utext(fl, True), judge_utext,
+               flag_kinds=())
     dfl = prog.cls("Quantity").attrs.get("dflt_format_spec")
     for ci in prog.classes.values():
         if ci.name != "Quantity" and prog.is_subclass(ci, "Quantity"):
